@@ -164,7 +164,11 @@ func (env *SEnv) call(e *SExpr) *SVal {
 		if x.T.Sort != SSlice {
 			env.fail("bytes() of non-slice")
 		}
-		return &SVal{T: u.bytesOf(env.cur, x.T)}
+		if env.noAssume {
+			E := u.comp(env.cur, ecomp(SInt))
+			return &SVal{T: App(SBytes, "view", Select(E, SArr(x.T)), SOff(x.T), SLen(x.T))}
+		}
+		return &SVal{T: u.bytesOfBound(env.cur, x.T, env.bound)}
 	case "strbytes":
 		x := env.eval(e.Args[0])
 		return &SVal{T: App(SBytes, "bytes_of_str", x.T)}
